@@ -16,67 +16,9 @@ from ..env import (mk, enum_val, Crash, Data, Raw, Compressed, JsonDoc, BufV, Bu
 from . import arch as A
 from .gc import StepPolicy
 
-NANOS = 1000000000
 
 
-# ============================================================================ jiff::Timestamp model
-class TimeV(Model):
-    """jiff::Timestamp as (floor seconds, nanoseconds in [0, 1e9))."""
-    ty = 'Timestamp'
-
-    def __init__(self, sec, nanos):
-        self.sec, self.nanos = sec, nanos
-
-    def clone_model(self):
-        return self
-
-    def eq_model(self, ex, other):
-        other = deref(other)
-        return b_and(eq(self.sec, other.sec), eq(self.nanos, other.nanos))
-
-
-def install_time(ex):
-    I = ex.intercepts
-
-    def add(p, f):
-        I.insert(0, (re.compile('(?:' + p + r')$'), f))
-
-    def as_second(ex, c, a):
-        t = deref(a[0])
-        if not isinstance(t, TimeV):
-            return NotImplemented
-        # jiff truncates towards zero and reports a negative sub-second part before the epoch
-        return ite(b_and(b_lt(t.sec, 0), b_lt(0, t.nanos)), t.sec + 1, t.sec)
-
-    def subsec(ex, c, a):
-        t = deref(a[0])
-        if not isinstance(t, TimeV):
-            return NotImplemented
-        return ite(b_and(b_lt(t.sec, 0), b_lt(0, t.nanos)), t.nanos - NANOS, t.nanos)
-
-    def new(ex, c, a):
-        sec, ns = a[0], a[1]
-        if not ex.branch(b_and(b_lt(-NANOS, ns), b_lt(ns, NANOS)), 'Timestamp::new nanos range'):
-            return err(Opaque('jiff::Error'))
-        total_floor = ite(b_lt(ns, 0), sec - 1, sec)
-        n2 = ite(b_lt(ns, 0), ns + NANOS, ns)
-        lo, hi = -377705023201, 253402207200
-        if not ex.branch(b_and(b_not(b_lt(total_floor, lo)), b_not(b_lt(hi, total_floor))), 'Timestamp::new range'):
-            return err(Opaque('jiff::Error'))
-        return ok(TimeV(total_floor, n2))
-    add(r'(?:jiff::)?Timestamp::as_second', as_second)
-    add(r'(?:jiff::)?Timestamp::subsec_nanosecond', subsec)
-    add(r'(?:jiff::)?Timestamp::new', new)
-
-    def ts_eq(ex, c, a):
-        x, y = deref(a[0]), deref(a[1])
-        if isinstance(x, TimeV) and isinstance(y, TimeV):
-            r = x.eq_model(ex, y)
-            return r if c.endswith('eq') else b_not(r)
-        return NotImplemented
-    add(r'<(?:jiff::)?Timestamp as PartialEq>::(eq|ne)', ts_eq)
-    add(r'<(?:jiff::)?Timestamp as Clone>::clone', lambda ex, c, a: deref(a[0]))
-    add(r'i32::cast_unsigned|core::num::<impl i32>::cast_unsigned', lambda ex, c, a: wrap(a[0], 'u32'))
+from ..env import TimeV, install_time, NANOS  # noqa (re-exported)
 
 
 # ============================================================================ source side
@@ -612,6 +554,12 @@ def check_backup_outcome(ex, d, case):
     srcs = dict(d['srcs'])
     check_inv(ex, st, srcs, problems, where)
     nb = d['new_band']
+    if case.get('validate_after') and (crashed or (r is not None and r[0] == 'ok')):
+        # C09 speaks of completed and interrupted-with-header backups: a band directory without a (complete) header is out of scope
+        bands_now, _b = decode_bands(ex, st)
+        if all(info.get('head') for info in bands_now.values()):
+            validate_healthy(ex, d, problems, where)
+        return problems
     if crashed:
         if case.get('follow_up', True):
             follow_up(ex, d, case, problems, where)
@@ -777,3 +725,20 @@ def follow_up(ex, d, case, problems, where):
     if not case.get('sym_meta') and unmod != len(set(basis_files)):
         problems.append('%s follow-up: %d unchanged files are recorded in the (stitched) previous version but only %s were reused' % (
             where, len(set(basis_files)), unmod))
+
+
+def validate_healthy(ex, d, problems, where):
+    """C09 healthy side: validation of an archive produced by fault-free operations reports nothing."""
+    vname = A.fn_by(ex.prog, 'Archive', None, 'validate')
+    for quick in (False, True):
+        ex.env['monitor'].errors.clear()
+        vo = mk(ex, 'validate::ValidateOptions', skip_block_hashes=quick)
+        try:
+            r = A.run_async(ex, vname, [Ref([d['ar']], 0), Ref([vo], 0), A.monitor_arc(ex)])
+        except Panic as p:
+            problems.append('%s: validate panics: %s' % (where, str(p)[:150]))
+            return
+        errs = [variant_name(ex, e) for e in ex.env['monitor'].errors]
+        if r.variant != 0 or errs:
+            problems.append('%s: %s validate of a healthy archive reports %s %s' % (where, 'quick' if quick else 'full',
+                                                                                 'Err' if r.variant != 0 else '', errs[:3]))
